@@ -6,7 +6,7 @@ import numpy as np
 from ..runner import Acc, HarnessError
 from ..refmodel import Fmt
 from .. import alphabet as al
-from ..common import AGED, build_aged, Fxp, codes, flags, fmt_of, reset_class_state, build
+from ..common import AGED, build_aged, ENVS, build as common_build, Fxp, codes, flags, fmt_of, reset_class_state, build
 
 ID = 'C16'
 RULE = ('comparison cases = (format pair, operator of 6, operand kinds {Fxp/Fxp, Fxp/number, number/Fxp}, code pair) compared with the relation '
@@ -27,6 +27,8 @@ def build(f, cs, shape, by):
     """by='raw': codes written raw (value type unset); by='value': from the exact values, ints when n_frac <= 0 (integer value type)"""
     if by == 'raw':
         return Fxp(np.array(cs, dtype=np.int64).reshape(shape), f.signed, f.n_word, f.n_frac, raw=True)
+    if by.startswith('env:'):            # a second feature in force (common.ENVS)
+        return common_build(f, list(cs), tuple(len(cs) if d == -1 else d for d in shape), by)
     if by in AGED:                       # the operand reached through a history (common.build_aged)
         return build_aged(f, list(cs), tuple(len(cs) if d == -1 else d for d in shape), by)
     if f.n_frac <= 0:
@@ -293,6 +295,11 @@ def run_shard(sh):
             ys = list(range(fym.lo, fym.hi + 1))
             judge_cmp(acc, fxm, fym, xs, ys, 'ff', 'S')
             judge_cmp(acc, fxm, fym, xs, ys, 'ff', 'S', 'value')
+            for env in (ENVS if max(fxm.n_word, fym.n_word) <= 2 else (ENVS[(sh['i'] + 5 * fs.index(fym)) % len(ENVS)],)):
+                judge_cmp(acc, fxm, fym, xs, ys, 'ff', 'S', 'env:' + env)
+                if fxm.n_word <= 3 and fym.n_word <= 3:
+                    judge_cmp(acc, fxm, fym, xs, ys, 'fn', 'S', 'env:' + env)
+                    judge_cmp(acc, fxm, fym, xs, ys, 'nf', 'S', 'env:' + env)
             for how in (AGED if max(fxm.n_word, fym.n_word) <= 2 else (AGED[(sh['i'] + fs.index(fym)) % len(AGED)],)):
                 judge_cmp(acc, fxm, fym, xs, ys, 'ff', 'S', how)
                 if fxm.n_word <= 3 and fym.n_word <= 3:
